@@ -9,7 +9,6 @@ pub struct UintContext { pub tok: Option<CommonToken>, pub text: String }
 impl UintContext { #[verifier::external_body] pub fn get_text(&self) -> (r: String) ensures r@ == self.text@ { unimplemented!() } }
 pub struct DoubleContext { pub tok: Option<CommonToken>, pub text: String }
 impl DoubleContext { #[verifier::external_body] pub fn get_text(&self) -> (r: String) ensures r@ == self.text@ { unimplemented!() } }
-#[verifier::external_type_specification] #[verifier::external_body] pub struct ExParseFloatError(std::num::ParseFloatError);
 /// value of one digit in the radix, of a non-empty run of digits (most significant first)
 pub open spec fn digit_val(c: char, radix: int) -> Option<int> {
     if '0' <= c && c <= '9' && (c as int - 48) < radix { Some(c as int - 48) }
